@@ -27,6 +27,7 @@ import (
 
 	"github.com/pingcap/kvproto/pkg/metapb"
 	"github.com/pingcap/kvproto/pkg/pdpb"
+	"github.com/pingcap/kvproto/pkg/replication_modepb"
 	"github.com/tikv/pd/server/core"
 )
 
@@ -53,6 +54,9 @@ type Region struct {
 	Read    uint64
 	Pending []uint64 // peer ids
 	Down    []uint64 // peer ids
+	// replication status reported with the heartbeat (0 = none reported)
+	ReplState   int32
+	ReplStateID uint64
 }
 
 func (r *Region) clone() Region {
@@ -105,6 +109,9 @@ type Snapshot struct {
 	Cause      string // event that triggered it
 	R          Region
 	ReportTerm bool // false: an old store that does not report the raft term (term 0 on the wire)
+	// NilSpelling: empty keys and empty peer lists are sent as nil instead of empty slices (the two
+	// spellings mean the same on the wire and must be treated alike)
+	NilSpelling bool
 }
 
 // WireTerm is the term as it appears in the heartbeat.
@@ -120,6 +127,14 @@ func (s *Snapshot) Request() *pdpb.RegionHeartbeatRequest {
 	r := &s.R
 	meta := &metapb.Region{Id: r.ID, StartKey: []byte(r.Start), EndKey: []byte(r.End),
 		RegionEpoch: &metapb.RegionEpoch{ConfVer: r.ConfVer, Version: r.Version}}
+	if s.NilSpelling {
+		if r.Start == "" {
+			meta.StartKey = nil
+		}
+		if r.End == "" {
+			meta.EndKey = nil
+		}
+	}
 	var leader *metapb.Peer
 	byID := map[uint64]*metapb.Peer{}
 	for _, p := range r.Peers {
@@ -138,6 +153,12 @@ func (s *Snapshot) Request() *pdpb.RegionHeartbeatRequest {
 		ApproximateSize: uint64(r.SizeMB) << 20, ApproximateKeys: uint64(r.Keys),
 		BytesWritten: r.Written, BytesRead: r.Read, KeysWritten: r.Written / 64, KeysRead: r.Read / 64,
 		Interval: &pdpb.TimeInterval{StartTimestamp: uint64(s.Seq) * 10, EndTimestamp: uint64(s.Seq)*10 + 10},
+	}
+	if r.ReplState != 0 {
+		req.ReplicationStatus = &replication_modepb.RegionReplicationStatus{State: replication_modepb.RegionReplicationState(r.ReplState), StateId: r.ReplStateID}
+	}
+	if !s.NilSpelling {
+		req.PendingPeers, req.DownPeers = []*metapb.Peer{}, []*pdpb.PeerStats{}
 	}
 	for _, id := range r.Pending {
 		if mp := byID[id]; mp != nil {
@@ -353,7 +374,7 @@ func (w *World) emit(r *Region, cause string, p float64) {
 	if p < 1 && w.rng.Float64() >= p {
 		return
 	}
-	w.Emitted = append(w.Emitted, &Snapshot{Seq: len(w.Emitted), Step: w.step, Cause: cause, R: r.clone(), ReportTerm: w.reports(r)})
+	w.Emitted = append(w.Emitted, &Snapshot{Seq: len(w.Emitted), Step: w.step, Cause: cause, R: r.clone(), ReportTerm: w.reports(r), NilSpelling: len(w.Emitted)%3 == 0})
 }
 
 func (w *World) note(kind, format string, a ...interface{}) {
